@@ -225,6 +225,13 @@ func c20CheckHist(c C20Hist) (v vcase.Verdict) {
 		v.Label("midnight_and_abort")
 	}
 	v.Label(fmt.Sprintf("uploads=%s", c20Bucket(len(ids))))
+	perDay := map[string]int{}
+	for _, dd := range days {
+		perDay[dd]++
+		if perDay[dd] == 10 {
+			v.Label("ten_or_more_uploads_on_one_day")
+		}
+	}
 	v.Sub = len(ids)
 	return
 }
@@ -248,10 +255,18 @@ func c20GenHist(t *rapid.T) C20Hist {
 	back := rapid.SampledFrom([]int64{0, 1, 2, 59, 3600, 3 * 3600, 12 * 3600}).Draw(t, "back")
 	c.Start = day*86400 - back
 	c.ZoneSec = rapid.SampledFrom([]int{0, 0, 3600, -3600, 9 * 3600, -8 * 3600, 14 * 3600, -12 * 3600, 19800}).Draw(t, "zone")
-	n := rapid.IntRange(1, 24).Draw(t, "nops")
+	// one history in three stays within a few minutes (many uploads on one
+	// day, numbers with several digits); the others jump across midnights
+	sameDay := rapid.IntRange(0, 2).Draw(t, "sameday") == 0
+	n := rapid.IntRange(1, 40).Draw(t, "nops")
 	for i := 0; i < n; i++ {
 		op := rapid.SampledFrom([]string{"new", "new", "new", "insert", "insert", "commit", "commit", "abort"}).Draw(t, "op")
-		adv := rapid.SampledFrom([]int64{0, 0, 0, 1, 1, 2, 60, 3599, 3600, 7200, 43200, 86399, 86400, 86401, 172800}).Draw(t, "adv")
+		var adv int64
+		if sameDay {
+			adv = rapid.SampledFrom([]int64{0, 0, 0, 1, 2, 60}).Draw(t, "adv")
+		} else {
+			adv = rapid.SampledFrom([]int64{0, 0, 0, 1, 1, 2, 60, 3599, 3600, 7200, 43200, 86399, 86400, 86401, 172800}).Draw(t, "adv")
+		}
 		c.Ops = append(c.Ops, C20Op{Op: op, U: rapid.IntRange(0, 7).Draw(t, "u"), Adv: adv})
 	}
 	return c
